@@ -4,7 +4,7 @@ import coreprop
 
 PID = "C01"
 LEAN_MODULES = ['Verif.Inv.Slots', 'Verif.Inv.Kernel', 'Verif.Inv.TokInv', 'Verif.Inv.OwnInv', 'Verif.Props.C01']
-PROFILES = ['all', 'reentrant', 'fd']
+PROFILES = ['all', 'reentrant', 'fd', 'timers']
 TRUSTED_BASE = [
     "modelled, not verified: Linux epoll as used by polling 3.x (registration table + FIFO ready list, level/edge/oneshot), eventfd counters, std mpsc as a FIFO queue (single-threaded view), BinaryHeap pop order among equal deadlines (histories use distinct deadlines), Rc/RefCell as reference counts and borrow flags — all in lean/Verif/Model/{Kernel,Wheel,Slots,Loop}.lean and exercised against the real kernel/crate by the correspondence",
     "Spec.Core (lean/Verif/Spec/Core.lean) is the formal reading of the English property; its clauses for this property are evaluated on the real loop's traces",
